@@ -190,6 +190,11 @@ func (e *Enc) compile(c *SpecCtx, x *Expr) CE {
 		b := e.compile(c, x.Args[2])
 		a, b = e.unify(c, a, b)
 		return CE{T: ite(cond, a.T, b.T), Typ: a.Typ}
+	case "sum":
+		if x.VarType != "elem" || len(x.Args) != 2 {
+			fail("%s: sum needs 'sum x in s :: e'", c.what)
+		}
+		return e.compileSumOver(c, x)
 	case "forall", "exists":
 		if x.VarType == "elem" && len(x.Args) == 2 {
 			return e.compileQuantOver(c, x)
@@ -199,6 +204,7 @@ func (e *Enc) compile(c *SpecCtx, x *Expr) CE {
 			fail("%s: bad quantifier type %s", c.what, x.VarType)
 		}
 		vn := e.B.freshName("q." + x.Var)
+		e.noteBound(vn, srt)
 		body := e.compileBool(c.bindName(x.Var, CE{T: vn, Typ: typ}), x.Args[0])
 		if x.Op == "forall" {
 			// instantiation triggers: every "(select <atom> <var>)" in the body
@@ -525,6 +531,10 @@ func (e *Enc) compileBin(c *SpecCtx, x *Expr) CE {
 		}
 		return CE{T: "(" + op + " " + a.T + " " + b.T + ")", Typ: tBool}
 	case "+", "-", "*":
+		if op == "+" && a.Typ != nil && b.Typ != nil && e.B.sortOf(a.Typ) == "Str" && e.B.sortOf(b.Typ) == "Str" {
+			e.B.declTop("strcat", "(declare-fun strcat (Str Str) Str)")
+			return CE{T: "(strcat " + a.T + " " + b.T + ")", Typ: tStr}
+		}
 		rt := tMath
 		if isReal(a.Typ) || isReal(b.Typ) {
 			rt = tReal
@@ -616,6 +626,39 @@ func (e *Enc) compileCallExpr(c *SpecCtx, x *Expr) CE {
 		}
 		q := e.B.freshName("q.r")
 		var neq []Term
+		for _, r := range refs {
+			neq = append(neq, "(not (= "+q+" "+r+"))")
+		}
+		k := e.B.heapName(elem)
+		srt := e.B.heapSort(elem)
+		h := e.get(c.st, k, srt)
+		h0 := e.get(c.old, k, srt)
+		if h == h0 {
+			return CE{T: "true", Typ: tBool}
+		}
+		return CE{T: fmt.Sprintf("(forall ((%s Int)) (! (=> %s (= (select %s %s) (select %s %s))) :pattern ((select %s %s))))",
+			q, and(neq...), h, q, h0, q, h, q), Typ: tBool}
+	case "cellsframe": // cellsframe(p1, p2, ...): every object of p1's pointee heap other than the objects the listed pointers point into is as in old()
+		if len(x.Args) == 0 {
+			fail("%s: cellsframe needs a pointer", c.what)
+		}
+		var refs []Term
+		var elem types.Type
+		for _, a := range x.Args {
+			ce := e.compile(c, a)
+			u, ok := ce.Typ.Underlying().(*types.Pointer)
+			if !ok {
+				fail("%s: cellsframe of non-pointer %s", c.what, ce.Typ)
+			}
+			if elem == nil {
+				elem = u.Elem()
+			}
+			refs = append(refs, "(pref "+ce.T+")")
+		}
+		q := e.B.freshName("q.r")
+		// only objects that existed in the old state (what was allocated since
+		// has no old content to compare with)
+		neq := []Term{"(>= " + q + " " + e.alloc(c.old) + ")"}
 		for _, r := range refs {
 			neq = append(neq, "(not (= "+q+" "+r+"))")
 		}
